@@ -39,10 +39,15 @@ ASSUMPTIONS = [
     "leaf / container (libyang hands out further equal instances through the duplicate-instance cache)",
     "theorems: for all S1 schemas and all well-formed trees (Merge.wfForest: shape, canonical order, unique instances, "
     "default flags consistent downwards); every generated validated tree is checked against that predicate (op wf)",
+    "merge_idempotent_partial, merge_contains_source, merge_keeps_untouched_target: sources without instances of key-less lists / "
+    "state leaf-lists (no identity; matched one to one through the cache) — the full statements are OPEN in Props/C14.lean and "
+    "evaluated on the implementation for every generated pair (laws idem / contains / keeps, pairs with repeated instances "
+    "included, exhaustively for short sequences); merge_into_empty, merge_destruct_eq_copy, merge_result_canonical and the dup "
+    "theorems hold for all well-formed trees",
     "independence (no shared mutable state) is checked on the implementation under ASan/UBSan with seeded edit/free scripts; it is "
     "not a theorem (a pure model has no aliasing)",
     "the lyds pool of LYD_MERGE_DESTRUCT is not modelled: the model of the consuming merge inserts as the copying merge does "
-    "(finding F70 is where the C differs)",
+    "(finding F70 is where the C differs); duplication into another context is modelled as duplication (finding F72 is where the C fails)",
 ]
 TRUSTED = ["tools/vlib/treegen.py (schema/instance generator, YANG renderer)", "harness/treeproto.h (tree loader and canonical dump)"]
 
@@ -831,7 +836,7 @@ def run(cx):
             "distinct seeded independence scripts")
     rng = cx.sub_rng("schemas")
     nsch = cx.n(32, 120)
-    per = cx.n(55, 800)
+    per = cx.n(55, 260)
     schemas = hand_schemas() + [tg.gen_schema(rng, i, max_depth=rng.choice([2, 3, 3])) for i in range(nsch)]
     cases = load_corpus(cx)
     for i, s in enumerate(schemas):
